@@ -165,6 +165,8 @@ variable (hframe : ∀ (n : Node) (p s : List Event) (vb : List Node) (b : List 
     P (n :: vb) (p ++ b ++ s))
 include hnil happ hframe
 
+set_option linter.unusedSectionVars false
+
 mutual
 theorem render_ind_node (n : Node) (hq : ∀ m ∈ visited n, Q m) (evs : List Event)
     (h : render lookup n = .ok evs) : P (visited n) evs := by
@@ -204,5 +206,180 @@ theorem render_ind_list (cs : List Node) (hq : ∀ m ∈ visitedList cs, Q m) (e
           (render_ind_list r (fun m hm => hq m (by simp [visitedList, hm])) b hb)
 end
 end Induction
+
+/-! ## 3. the frame without its partial parts -/
+
+/-- `TAG[level - 1]` as a total function (only used where `tagAt` succeeds) -/
+def headingTag (tags : List (List Char)) (level : Nat) : List Char := tags.getD (level - 1) tH1
+
+/-- the attribute list of a fence's `<code>` (`fence_class`) -/
+def fenceAttrsT (lookup : List Char → Option (List Char)) (attrs : List (List Char × List Char))
+    (info langPrefix : List Char) : List (List Char × List Char) :=
+  if firstWord (MdIt.Entity.unescapeAll lookup info) = [] then attrs
+  else attrs ++ [(aClass, langPrefix ++ firstWord (MdIt.Entity.unescapeAll lookup info))]
+
+/-- `frameOf` for a node whose own code does not panic -/
+def frameT (lookup : List Char → Option (List Char)) (k : Kind)
+    (attrs : List (List Char × List Char)) (alt : List Char) : List Event × List Event :=
+  match k with
+  | .root => ([], [])
+  | .paragraph => ([.cr, .open tP attrs], [.close tP, .cr])
+  | .atx level =>
+    ([.cr, .open (headingTag atxTags level) attrs], [.close (headingTag atxTags level), .cr])
+  | .setext level =>
+    ([.cr, .open (headingTag setextTags level) attrs], [.close (headingTag setextTags level), .cr])
+  | .hr => ([.cr, .selfClose tHr attrs, .cr], [])
+  | .codeBlock content =>
+    ([.cr, .open tPre [], .open tCode attrs, .text content, .close tCode, .close tPre, .cr], [])
+  | .codeFence info content langPrefix =>
+    ([.cr, .open tPre [], .open tCode (fenceAttrsT lookup attrs info langPrefix), .text content,
+      .close tCode, .close tPre, .cr], [])
+  | .blockquote => ([.cr, .open tBlockquote attrs, .cr], [.cr, .close tBlockquote, .cr])
+  | .orderedList start => ([.cr, .open tOl (olAttrs attrs start), .cr], [.cr, .close tOl, .cr])
+  | .bulletList => ([.cr, .open tUl attrs, .cr], [.cr, .close tUl, .cr])
+  | .listItem => ([.open tLi attrs], [.close tLi, .cr])
+  | .text s => ([.text s], [])
+  | .special content => ([.text content], [])
+  | .softbreak => ([.cr], [])
+  | .hardbreak => ([.selfClose tBr [], .cr], [])
+  | .codeInline => ([.open tCode attrs], [.close tCode])
+  | .em => ([.open tEm attrs], [.close tEm])
+  | .strong => ([.open tStrong attrs], [.close tStrong])
+  | .strike => ([.open tS attrs], [.close tS])
+  | .link url title => ([.open tA (linkAttrs attrs url title)], [.close tA])
+  | .image url title => ([.selfClose tImg (imageAttrs attrs url alt title)], [])
+  | .autolink url => ([.open tA (attrs ++ [(aHref, url)])], [.close tA])
+  | .htmlBlock content => ([.cr, .raw content, .cr], [])
+  | .htmlInline content => ([.raw content], [])
+  | .placeholder => ([], [])
+
+theorem tagAt_eq (tags : List (List Char)) (level : Nat) :
+    tagAt tags level =
+      if 1 ≤ level ∧ level ≤ tags.length then .ok (headingTag tags level) else .error .index := by
+  unfold tagAt headingTag
+  by_cases h0 : level = 0
+  · simp [h0]
+  · by_cases hl : level ≤ tags.length
+    · have hlt : level - 1 < tags.length := by omega
+      have h1 : 1 ≤ level := by omega
+      simp [h0, hl, h1, List.getElem?_eq_getElem hlt, List.getD_eq_getElem?_getD]
+    · have hge : tags.length ≤ level - 1 := by omega
+      simp [h0, hl, List.getElem?_eq_none hge]
+
+/-- **The node's own code panics exactly when `Kind.panic?` says so, with that panic; otherwise
+    its frame is `frameT`.**  (`unescape_all` contributes no panic: `Entity.unescapeAllE_total`.) -/
+theorem frameOf_eq (lookup : List Char → Option (List Char)) (k : Kind)
+    (attrs : List (List Char × List Char)) (alt : List Char) :
+    frameOf lookup k attrs alt =
+      match k.panic? with
+      | some e => .error e
+      | none => .ok (frameT lookup k attrs alt) := by
+  cases k with
+  | atx level =>
+    simp only [frameOf, tagAt_eq, Kind.panic?, frameT]
+    have : atxTags.length = 6 := rfl
+    rw [this]
+    by_cases hl : 1 ≤ level ∧ level ≤ 6 <;> simp [hl]
+  | setext level =>
+    simp only [frameOf, tagAt_eq, Kind.panic?, frameT]
+    have : setextTags.length = 2 := rfl
+    rw [this]
+    by_cases hl : 1 ≤ level ∧ level ≤ 2 <;> simp [hl]
+  | codeFence info content langPrefix =>
+    simp only [frameOf, fence_class, Kind.panic?, frameT, fenceAttrsT]
+  | _ => rfl
+
+/-- `Except` → the panic, if any -/
+def toPanic? {α : Type} : Except Panic α → Option Panic
+  | .error e => some e
+  | .ok _ => none
+
+/-- the first panic along a list of nodes in invocation order -/
+def firstPanic (l : List Node) : Option Panic := l.findSome? (fun m => m.kind.panic?)
+
+mutual
+theorem render_toPanic (lookup : List Char → Option (List Char)) (n : Node) :
+    toPanic? (render lookup n) = firstPanic (visited n) := by
+  match n with
+  | ⟨k, a, cs⟩ =>
+    rw [render_frame, frameOf_eq]
+    unfold visited firstPanic bodyOf
+    simp only [List.findSome?_cons]
+    cases hp : k.panic? with
+    | some e => simp [toPanic?]
+    | none =>
+      simp only []
+      by_cases hc : k.isContainer = true
+      · simp only [hc, if_true]
+        have ih := renderList_toPanic lookup cs
+        unfold firstPanic at ih
+        rw [← ih]
+        cases renderList lookup cs <;> simp [toPanic?]
+      · simp [hc, toPanic?]
+theorem renderList_toPanic (lookup : List Char → Option (List Char)) (cs : List Node) :
+    toPanic? (renderList lookup cs) = firstPanic (visitedList cs) := by
+  match cs with
+  | [] => simp [renderList, visitedList, firstPanic, toPanic?]
+  | n :: r =>
+    have ih1 := render_toPanic lookup n
+    have ih2 := renderList_toPanic lookup r
+    unfold firstPanic at ih1 ih2 ⊢
+    unfold visitedList
+    rw [List.findSome?_append, ← ih1, ← ih2]
+    simp only [renderList]
+    cases render lookup n with
+    | error e => simp [toPanic?]
+    | ok a => cases renderList lookup r <;> simp [toPanic?]
+end
+
+/-! ## 4. `render_total` -/
+
+/-- every node that gets rendered has a heading level its tag table covers and is no placeholder -/
+def Renderable (t : Node) : Prop := ∀ m ∈ visited t, m.kind.panic? = none
+
+instance (t : Node) : Decidable (Renderable t) := by unfold Renderable; infer_instance
+
+/-- what `Kind.panic? = none` says, spelled out -/
+theorem Kind.panic?_eq_none_iff (k : Kind) :
+    k.panic? = none ↔
+      (∀ l, k = .atx l → 1 ≤ l ∧ l ≤ 6) ∧ (∀ l, k = .setext l → 1 ≤ l ∧ l ≤ 2) ∧ k ≠ .placeholder := by
+  cases k <;> simp [Kind.panic?]
+
+/-- **`render_total`.** Rendering succeeds exactly on `Renderable` trees: every ATX level rendered
+    is in `1..6`, every setext level in `1..2`, and no placeholder is rendered — for every tree,
+    payload and entity table. -/
+theorem render_total (lookup : List Char → Option (List Char)) (t : Node) :
+    (∃ evs, render lookup t = .ok evs) ↔ Renderable t := by
+  have h := render_toPanic lookup t
+  unfold Renderable
+  constructor
+  · rintro ⟨evs, he⟩
+    rw [he] at h
+    have h' : firstPanic (visited t) = none := h.symm
+    unfold firstPanic at h'
+    exact List.findSome?_eq_none_iff.mp h'
+  · intro hr
+    have h' : firstPanic (visited t) = none := List.findSome?_eq_none_iff.mpr hr
+    rw [h'] at h
+    cases hr' : render lookup t with
+    | ok evs => exact ⟨evs, rfl⟩
+    | error e => rw [hr'] at h; simp [toPanic?] at h
+
+/-- **Exact panic.** Rendering panics with `e` iff the FIRST node, in invocation order, whose own
+    code panics, panics with `e` (out-of-range heading ↦ `index`, placeholder ↦ `unimplemented`). -/
+theorem render_panic_exact (lookup : List Char → Option (List Char)) (t : Node) (e : Panic) :
+    render lookup t = .error e ↔ firstPanic (visited t) = some e := by
+  rw [← render_toPanic lookup t]
+  cases render lookup t <;> simp [toPanic?]
+
+/-- no tree makes `unescape_all` panic -/
+theorem render_never_unescape_panic (lookup : List Char → Option (List Char)) (t : Node)
+    (e : MdIt.Entity.Panic) : render lookup t ≠ .error (.unescape e) := by
+  intro h
+  have := (render_panic_exact lookup t _).mp h
+  unfold firstPanic at this
+  obtain ⟨m, _, hm⟩ := List.exists_of_findSome?_eq_some this
+  cases hk : m.kind <;> simp [hk, Kind.panic?] at hm
+  all_goals (split at hm <;> simp at hm)
 
 end MdIt.NodeRender
